@@ -1075,7 +1075,29 @@ func MutateString(t *rapid.T, s string) string {
 		if len(rs) > 0 {
 			pos = upTo(t, 0, len(rs))
 		}
-		switch upTo(t, 0, 7) {
+		switch upTo(t, 0, 9) {
+		case 8: // a zero in front of a digit run (also one glued to letters: rc1 -> rc01)
+			var starts []int
+			for i, r := range rs {
+				if r >= '0' && r <= '9' && (i == 0 || rs[i-1] < '0' || rs[i-1] > '9') {
+					starts = append(starts, i)
+				}
+			}
+			if len(starts) > 0 {
+				at := starts[upTo(t, 0, len(starts)-1)]
+				rs = append(rs[:at:at], append([]rune{'0'}, rs[at:]...)...)
+			}
+		case 9: // the leading zeros of a digit run taken away
+			var zs []int
+			for i, r := range rs {
+				if r == '0' && (i == 0 || rs[i-1] < '0' || rs[i-1] > '9') && i+1 < len(rs) && rs[i+1] >= '0' && rs[i+1] <= '9' {
+					zs = append(zs, i)
+				}
+			}
+			if len(zs) > 0 {
+				at := zs[upTo(t, 0, len(zs)-1)]
+				rs = append(rs[:at:at], rs[at+1:]...)
+			}
 		case 0, 1: // insert
 			r := rapid.SampledFrom(Alphabet).Draw(t, "r")
 			rs = append(rs[:pos:pos], append([]rune{r}, rs[pos:]...)...)
